@@ -351,6 +351,14 @@ def handle (j : Json) : Json :=
       | _ => none
     Json.mkObj [("errs", strList (Semver.validateVersion (Semver.normalizeBuild (jstr j "linker")) given))]
   | "normalizeBuild" => Json.mkObj [("ok", Semver.normalizeBuild (jstr j "linker"))]
+  | "mainInfo" =>
+    -- main.go: defaults (from the Go build info) + linker values ↦ version info and build-info line
+    let d := (j.getObjVal? "defaults").toOption.getD Json.null
+    let dflt : Semver.Info := { gitVersion := jstr d "gitVersion", gitCommit := jstr d "gitCommit", treeState := jstr d "treeState",
+                                buildDate := jstr d "buildDate", builtBy := jstr d "builtBy" }
+    let i := Semver.applyLinker dflt (jstr j "Version") (jstr j "Commit") (jstr j "Dirty") (jstr j "Date") (jstr j "BuiltBy")
+    Json.mkObj [("gitVersion", i.gitVersion), ("gitCommit", i.gitCommit), ("treeState", i.treeState), ("buildDate", i.buildDate),
+                ("builtBy", i.builtBy), ("buildInfo", Semver.buildInfo i)]
   | "unquote" =>
     match GoQuote.unquote (jstr j "s").toList with
     | some v => Json.mkObj [("ok", String.ofList v)]
